@@ -620,6 +620,14 @@ func (p *packerV4) pack(options ...*bgp.MarshallingOption) []*bgp.BGPMessage {
 
 	loop := func(attrsLen int, paths []*Path, cb func([]bgp.PathNLRI)) {
 		max := maxNLRIs(attrsLen)
+		if max <= 0 {
+			// The attributes leave no room for even one worst-case NLRI. A
+			// zero budget silently dropped the routes and a negative one
+			// panicked in make(); emit them one per message instead and let
+			// BGPMessage.Serialize accept or report each on its own, as the
+			// MP packer does.
+			max = 1
+		}
 		var nlris []bgp.PathNLRI
 		for {
 			nlris, paths = split(max, paths)
